@@ -160,6 +160,20 @@ def cases(draw):
             return {'model': spec, 'T': 'T1', 'text': T.render_flow(gen.project(v, spec)),
                     'text2': T.render_flow(gen.project(v2, spec)), 'src': how or 'value'}
         tk = 'T2'
+    if tk == 'T2' and draw(st.integers(0, 4)) == 0:
+        # valid explicit tags: every class mapping tagged with its own class
+        # (in hierarchies and Unions the tag then rules other candidates out)
+        v = draw(gen.vspec_for(spec, spec['doc_type'], hard=False))
+        if v is not None:
+            from yv.props.c01 import obj_sites
+            t = gen.project(v, spec)
+            for path, o in obj_sites(v, spec):
+                node = copy.deepcopy(T.get_at(t, path))
+                if node[0] == 'm' and draw(st.integers(0, 3)) > 0:
+                    node[2] = '!' + o[1]
+                    t = T.set_at(t, path, node)
+            return {'model': spec, 'T': 'T2', 'text': T.render_flow(t), 'src': 'value+own_tags',
+                    'style': draw(st.sampled_from(T.STYLES))}
     if tk == 'T2' and draw(st.integers(0, 3)) == 0:
         # every position below Any: explicit tags (also on scalars) must be
         # ignored whatever the style
@@ -246,7 +260,36 @@ def outcome(spec, text):
         return ('exc', type(e).__name__ + ': ' + str(e))
 
 
+def enum_restyled(maxn):
+    """Every small tagged document over the hierarchy portfolio models x two
+    other styles (T2, bounded-exhaustive)."""
+    from yv import portfolio
+    from yv.props import c02, c03
+
+    def gen_(shard, nshards):
+        i = 0
+        for name in c03.HIER:
+            spec = portfolio.MODELS[name]
+            tags = [''] + ['!%s ' % c['name'] for c in spec['classes']] + ['!Unknown ']
+            keys = portfolio.KEYS[name]
+            scals = portfolio.SCALS_BY.get(name, portfolio.SCALS)
+            for n in range(1, maxn + 1):
+                for text in c02.small_trees(n, tuple(keys), tuple(scals)):
+                    if not text.startswith('{') and name != 'L':
+                        continue
+                    for tg in tags:
+                        for style in ('block', 'dq'):
+                            if i % nshards == shard:
+                                yield {'portfolio': name, 'T': 'T2', 'text': tg + text,
+                                       'style': style, 'src': 'enum'}
+                            i += 1
+    return gen_
+
+
 def check(case, ctx):
+    if 'portfolio' in case:
+        from yv import portfolio
+        case = dict(case, model=portfolio.MODELS[case['portfolio']])
     spec, tk, text = case['model'], case['T'], case['text']
     spec2, text2 = spec, text
     if tk == 'T1':
@@ -322,4 +365,9 @@ def check(case, ctx):
 
 def phases(tier):
     n = 400 if tier != 'thorough' else 6000
-    return [HypPhase('transformations', cases(), n)]
+    from yv.runner import EnumPhase
+    k = 3 if tier != 'thorough' else 4
+    return [HypPhase('transformations', cases(), n),
+            EnumPhase('small_tagged_documents_restyled', enum_restyled(k),
+                      'every mapping document of <=%d nodes over 7 hierarchy portfolio models x '
+                      'every class tag on the root x block and double-quoted re-serialisation' % k)]
